@@ -108,6 +108,8 @@ void hazard_eras<Traits>::guard_ptr<T, MarkedPtr>::acquire(const concurrent_ptr<
       }
       he->release_guard();
       he = nullptr;
+      // we no longer protect anything; alloc_hazard_era may throw, in which case the guard must be empty
+      this->ptr.reset();
     }
     assert(he == nullptr);
     he = local_thread_data().alloc_hazard_era(era);
@@ -141,6 +143,9 @@ bool hazard_eras<Traits>::guard_ptr<T, MarkedPtr>::acquire_if_equal(const concur
   } else {
     if (he != nullptr) {
       he->release_guard();
+      // we no longer protect anything; alloc_hazard_era may throw, in which case the guard must be empty
+      he = nullptr;
+      this->ptr.reset();
     }
 
     he = local_thread_data().alloc_hazard_era(era);
